@@ -270,6 +270,13 @@ func (req *SrvReq) Process() {
 			req.RespondError(Eunknownfid)
 			return
 		}
+	} else {
+		switch tc.Type {
+		case Twalk, Topen, Tcreate, Tread, Twrite, Tclunk, Tremove, Tstat, Twstat:
+			// these messages name a fid, and NOFID is never a valid one
+			req.RespondError(Eunknownfid)
+			return
+		}
 	}
 
 	switch req.Tc.Type {
